@@ -125,7 +125,7 @@ class Engine(EngineBase):
                                       "pool_interleavings": len(SimPool.interleavings)}
             res["digest"] = world.digest()
             res["stats"]["steps"] = world.seq
-            res["stats"]["sim_ms"] = world.clock_ms - 1_000_000_000
+            res["stats"]["sim_ms"] = world.clock_ms - 1_000_000_000_000
         return res
 
 
